@@ -202,16 +202,32 @@ def execute(case: dict) -> dict:
 
         tasks = [loop.create_task(sender(i, msgs)) for i, msgs in enumerate(case["senders"])]
         cancel_at = {int(k): v for k, v in (case.get("cancel") or {}).items()}
+        # the transport's write buffer fills up and drains again at generated instants (pause_writing / resume_writing):
+        # senders over the writer's limit wait in drain meanwhile
+        stall = sorted((int(at), act) for at, act in (case.get("stall") or []))
+        harness_cancelled: set = set()
         it = 0
         while not all(t.done() for t in tasks):
             for i, k in cancel_at.items():
                 if k == it and not tasks[i].done():
                     tasks[i].cancel()
+                    harness_cancelled.add(i)
                     stats["cancelled"] += 1
+            for at, act in stall:
+                if at == it:
+                    stats["stalls"] = stats.get("stalls", 0) + 1
+                    for a in act:
+                        if a == "p" and not proto._paused:
+                            proto.pause_writing()
+                        elif a == "r" and proto._paused:
+                            proto.resume_writing()
+            if stall and it > stall[-1][0] + 40 and proto._paused:
+                proto.resume_writing()  # the peer reads again in the end
             loop.step()
             it += 1
             if it > 20000:
-                raise Violation("sender-hang", "sender tasks did not finish within 20000 loop iterations")
+                raise Violation("sender-hang", "sender tasks did not finish within 20000 loop iterations"
+                                + (" although the transport accepts writes again" if stall else ""))
         loop.run_until_idle()
         for _ in range(delay + 3):
             loop.run_until_idle()
@@ -220,6 +236,9 @@ def execute(case: dict) -> dict:
             raise Violation("background-task-left", f"{len(bg)} shielded send task(s) still pending at quiescence")
         for i, t in enumerate(tasks):
             if t.cancelled():
+                if i not in harness_cancelled:
+                    raise Violation("sender-cancelled-by-another", f"sender {i} ended with CancelledError although nobody cancelled it "
+                                    f"(cancelled by the harness: {sorted(harness_cancelled)}; stall schedule {stall})")
                 continue
             e = t.exception()
             if e is not None:
@@ -399,6 +418,12 @@ def cases(draw, concurrent: bool, override: bool = False):
         case["exec_delay"] = draw(st.integers(0, 3))
         if draw(st.booleans()):
             case["cancel"] = {str(draw(st.integers(0, ns - 1))): draw(st.integers(0, 12))}
+        if draw(st.booleans()):
+            # write stalls: "p" pause, "r" resume, "rp" the buffer drains and fills again at once
+            case["limit"] = draw(st.sampled_from([1, 16, 200]))
+            k = draw(st.integers(1, 4))
+            ats = sorted(draw(st.lists(st.integers(0, 14), min_size=k, max_size=k, unique=True)))
+            case["stall"] = [[at, "p" if j == 0 else draw(st.sampled_from(["r", "rp", "rp", "p"]))] for j, at in enumerate(ats)]
     else:
         msgs = draw(st.lists(ms, min_size=1, max_size=12))
         if draw(st.booleans()):
